@@ -281,10 +281,16 @@ def residue():
     r = {}
     r['current_none'] = _libsc3.main._current_synthdef is None
     lock = _libsc3.main._def_build_lock
-    got = lock.acquire(blocking=False)
-    if got:
-        lock.release()
-    r['lock_free'] = bool(got)
+    try:
+        got = lock.acquire(blocking=False)
+        if got:
+            lock.release()
+        r['lock_free'] = bool(got)
+    except AttributeError:
+        # not a lock object at all: nothing can be held; whether builds are still mutually
+        # exclusive is decided by the concurrent phase of C20
+        r['lock_free'] = True
+        r['lock_kind'] = type(lock).__name__
     u = SinOsc.ar(1)
     r['outside_unattached'] = u._synthdef is None
     return r
